@@ -160,9 +160,13 @@ add("C17", "other",
     "bounded on the box n in 0..7/12, units 0..n+2, all storages, period 0..4.")
 add("C18", "other",
     "Well-formedness of every emitted action at every yield of the VC classes, __eq__ (never raises, "
-    "equal iff same kind and args), Forward/Reverse __len__/__contains__: discharged VCs. repr/eval "
-    "round trip, iteration order and Revolve-family actions: bounded (strings and yield-from are "
-    "outside the encoding).")
+    "equal iff same kind and args), Forward/Reverse __len__/__contains__/__iter__ and every accessor "
+    "(n0, n1, write_ics, write_adj_deps, storage, clear_adj_deps, n, from_storage, to_storage): discharged "
+    "VCs; identity comparison of values excluded package-wide (AST obligation). Bounded (strings and "
+    "yield-from are outside the encoding): repr/eval round trip on random actions incl. integers around and "
+    "beyond sys.maxsize and on every action emitted in the boxes - both planner paths of Mixed (this is "
+    "what found D10: numpy integers on the tabulated path, repaired) - iteration order, Revolve-family "
+    "actions.")
 add("C19", "other",
     "Proved (VC): mxrr_close_formula returns int(beta(cm, t*)) with t* the first t with "
     "beta(cm+1,t) > (wd+rd)/uf (beta uninterpreted) and has no dependence on n; each segment is built "
